@@ -144,3 +144,49 @@ pub fn to_i64(v: &[i16]) -> Vec<i64> {
 pub fn to_i16(v: &[i64]) -> Vec<i16> {
     v.iter().map(|&x| x as i16).collect()
 }
+
+/// Byte source for the signer: ChaCha bytes, each of the first `biased_len` bytes replaced by 0x00
+/// with probability `p_zero_per_64k / 65536`, uniform afterwards (so that signing terminates). A zero top
+/// byte in the base sampler's 9-byte draw forces z0 >= 5, which inflates the variance of the
+/// sampled vector and drives the signer's norm-retry and compression-retry branches.
+pub struct BiasedRng {
+    pub inner: ChaCha12Rng,
+    pub p_zero_per_64k: u32,
+    pub biased_left: usize,
+    pub consumed: usize,
+}
+
+impl BiasedRng {
+    pub fn new(seed: u64, p_zero_per_64k: u32, biased_len: usize) -> Self {
+        BiasedRng { inner: chacha(seed), p_zero_per_64k, biased_left: biased_len, consumed: 0 }
+    }
+    fn next_byte(&mut self) -> u8 {
+        let w = self.inner.next_u32();
+        self.consumed += 1;
+        if self.biased_left > 0 {
+            self.biased_left -= 1;
+            if (w >> 8) & 0xFFFF < self.p_zero_per_64k {
+                return 0;
+            }
+        }
+        w as u8
+    }
+}
+
+impl RngCore for BiasedRng {
+    fn next_u32(&mut self) -> u32 {
+        self.next_byte() as u32
+    }
+    fn next_u64(&mut self) -> u64 {
+        self.next_byte() as u64
+    }
+    fn fill_bytes(&mut self, dest: &mut [u8]) {
+        for d in dest.iter_mut() {
+            *d = self.next_byte();
+        }
+    }
+    fn try_fill_bytes(&mut self, dest: &mut [u8]) -> Result<(), rand::Error> {
+        self.fill_bytes(dest);
+        Ok(())
+    }
+}
